@@ -187,17 +187,16 @@ theorem store_in_range {Γ : Ctx} {env : Env} {fs fs' : List Expr} {s : Stmt}
   store_index_in_range S hs hwl h
 
 /--
-**facts_hold_store_partial** (array-element targets).  If the situation holds before an
-accepted `a[i] = e` / `a[i] op= e`, the statement trips no monitor (index in range,
-right-hand side safe, stored value fits the element type) and the situation the checker
-continues with holds afterwards — PROVIDED nothing else the checker keeps relying on
-reads the array `a` through a different index expression (`NoAlias`, part of `wtStore`).
-`_partial`: the code has no such proviso; it drops only the facts that `Mention` the very
-expression `a[i]`, which is unsound (`index_alias_witness`; KNOWN_FINDINGS
-false-fact:mentions-index:after-store-index).
+**facts_hold_store** (array-element targets; C02 facts clause + C01).  If the situation
+holds before an accepted `a[i] = e` / `a[i] op= e`, the statement trips no monitor (index
+in range, right-hand side safe, stored value fits the element type) and the situation
+the checker continues with holds afterwards — whatever other elements of `a` the store
+aliases: the (repaired, fixes/C01-index-alias-store.patch) rule drops every fact that
+reads an element of `a` and records facts about `a[i]` only when neither `i` nor `e`
+read `a`.  With the unrepaired rule the statement is false (`index_alias_witness`).
 -/
-theorem facts_hold_store_partial {Γ : Ctx} {env : Env} {fs fs' : List Expr} {s : Stmt}
-    (S : Situation Γ env fs) (hw : wtStore Γ fs s) (h : checkStmt fs s = some fs') :
+theorem facts_hold_store {Γ : Ctx} {env : Env} {fs fs' : List Expr} {s : Stmt}
+    (S : Situation Γ env fs) (hw : wtStore Γ s) (h : checkStmt fs s = some fs') :
     stmtSafe env s ∧ Situation Γ (execStmt env s) fs' :=
   store_sound S hw h
 
@@ -214,11 +213,9 @@ theorem check_sound_F1_partial {Γ : Ctx} {env : Env} {fs fs' : List Expr} {ss :
     HoldsAlong Γ fs env ss :=
   block_sound ss fs fs' env S hw h
 
-/-- the same for blocks that also store to array elements; every element store carries
-its `NoAlias` side condition (inside `wtBlock`, stated over the facts the checker holds
-just before that statement) -/
+/-- the same for blocks that also store to array elements -/
 theorem check_sound_F1_arr_partial {Γ : Ctx} {env : Env} {fs fs' : List Expr} {ss : List Stmt}
-    (S : Situation Γ env fs) (hw : wtBlock Γ fs ss) (h : checkBlock fs ss = some fs') :
+    (S : Situation Γ env fs) (hw : ∀ s ∈ ss, wtStmtA Γ s) (h : checkBlock fs ss = some fs') :
     HoldsAlong Γ fs env ss :=
   block_sound_arr ss fs fs' env S hw h
 
@@ -255,7 +252,7 @@ monitor — no overflow, no bad shift or division, every index within its array,
 stored value within the refined type of its destination — and with every fact of the
 checker true where it holds it (`HoldsAlong`).
 `_partial`: method bodies are straight-line blocks of (op-)assignments to variables and
-array elements (`MethodOk`; element stores carry `NoAlias`); no if / while / calls.
+array elements (`MethodOk`); no if / while / calls.
 -/
 theorem check_sound_F1_hist_partial {Γ : Ctx} (hist : List (Method × List Int)) (o : Obj)
     (he : EnvOk Γ o.env)
@@ -280,25 +277,25 @@ theorem demoMethod_ok : MethodOk demoΓ demoMethod where
     simp only [demoMethod, List.mem_singleton] at hp
     subst hp; rfl
   body := by
-    apply wtBlock_of_wtStmt
     intro s hs
     simp only [demoMethod, List.mem_cons, List.not_mem_nil, or_false] at hs
     rcases hs with rfl | rfl
-    · exact ⟨⟨"x", rfl⟩, rfl⟩
-    · exact ⟨⟨"x", rfl, by decide⟩, trivial⟩
-  accepted := ⟨_, by decide⟩
+    · exact Or.inl ⟨⟨"x", rfl⟩, rfl⟩
+    · exact Or.inl ⟨⟨"x", rfl, by decide⟩, trivial⟩
+  accepted :=
+    ⟨[.binary .eq (.var "x" ⟨.u32, none, some 7⟩)
+        (.binary .plus (.var "args.a" ⟨.u32, none, some 6⟩) (.const 1)),
+      .binary .le (.var "x" ⟨.u32, none, some 7⟩) (.const 7),
+      .binary .ge (.var "x" ⟨.u32, none, some 7⟩) (.const 1)], by decide⟩
 
 example (vs : List Int) (hv : ∀ v ∈ vs, 0 ≤ v ∧ v ≤ 4294967295) :
     HistSafe demoΓ ⟨fun _ => 0, false⟩ (vs.map fun v => (demoMethod, [v])) := by
   apply check_sound_F1_hist_partial
   · intro key
-    have : ∀ t : Ty, t.base = .u32 → t.min = none → inType t 0 := by
-      intro t hb hm
-      refine ⟨by simp [inNatural, hb, Base.range, Base.numBounds], fun _ => ⟨?_, ?_⟩⟩
-      · intro m h; rw [hm] at h; cases h
-      · intro m h
-        sorry
-    sorry
+    simp only [demoΓ]
+    split
+    · simp [inType, inNatural, Base.range, Base.numBounds]
+    · split <;> simp [inType, inNatural, Base.range, Base.numBounds]
   · intro c hc
     simp only [List.mem_map] at hc
     obtain ⟨v, hv', rfl⟩ := hc
@@ -343,19 +340,21 @@ def aliasStore : Stmt :=
 def aliasEnv : Env := fun k => if k = .cell "this.idx" 0 then 1 else 0
 
 /--
-**index_alias_witness** (OPEN defect of the code, KNOWN_FINDINGS
-false-fact:mentions-index:after-store-index): the model of `bcheckAssignment` — like the
-code — accepts `this.idx[args.a] = 200` and KEEPS the fact `this.idx[0] == 1`; in the
-store where `args.a == 0` the fact holds before the statement and is false after it.  So
-`facts_hold_store_partial` cannot lose its `NoAlias` hypothesis while the rule stands.
+**index_alias_witness** (defect of the unrepaired code, repaired by
+fixes/C01-index-alias-store.patch; was KNOWN_FINDINGS
+false-fact:mentions-index:after-store-index).  The unrepaired `bcheckAssignment` dropped
+only the facts that `Mention` the very expression `this.idx[args.a]`, so it KEPT the fact
+`this.idx[0] == 1` across `this.idx[args.a] = 200`; in the store where `args.a == 0` that
+fact holds before the statement and is false after it.  The repaired rule drops it.
 -/
 theorem index_alias_witness :
-    checkStmt aliasFacts aliasStore = some (aliasFacts ++
-      [.binary .eq (.index "this.idx" 8 ⟨.u8, none, none⟩ (.var "args.a" ⟨.u8, none, some 7⟩))
-        (.const 200)]) ∧
+    dropMentioning aliasFacts (stmtTarget aliasStore) = aliasFacts ∧
     FactsHold aliasEnv aliasFacts ∧
-    ¬ FactsHold (execStmt aliasEnv aliasStore) aliasFacts := by
-  refine ⟨by decide, ?_, ?_⟩
+    ¬ FactsHold (execStmt aliasEnv aliasStore) aliasFacts ∧
+    checkStmt aliasFacts aliasStore = some
+      [.binary .eq (.index "this.idx" 8 ⟨.u8, none, none⟩ (.var "args.a" ⟨.u8, none, some 7⟩))
+        (.const 200)] := by
+  refine ⟨by decide, ?_, ?_, by decide⟩
   · intro f hf
     simp only [aliasFacts, List.mem_singleton] at hf
     subst hf
@@ -424,8 +423,10 @@ example : accepts [[1, 2], [3], [3], []] = true ∧ accepts [[1], [2], [0]] = fa
 -- interpreter over the real typed AST + sanitizers).
 --
 -- Known, unrepaired unsoundness of the real checker outside this fragment
--- (KNOWN_FINDINGS.txt): index aliasing (`a[e] = v` keeps facts about `a[c]`), stale
--- pure-call facts (`y == this.get()` survives a store to the field read by get()).
+-- (KNOWN_FINDINGS.txt): stale pure-call facts (`y == this.get()` survives a store to
+-- the field read by get()).  Index aliasing between elements of ONE array or slice
+-- is repaired (fixes/C01-index-alias-store.patch); aliasing between two different
+-- slice values that share memory is outside the fragment and not addressed.
 -/
 
 end WuffsVerif.Props.C01
